@@ -196,6 +196,15 @@ func TestC11Rapid(t *testing.T) {
 					rt.Fatalf("C11 violated after the bulk proposals: %v\nhistory:\n%s", err, w.history())
 				}
 			}
+			if rapid.IntRange(0, 29).Draw(rt, "roundtrip") == 0 {
+				// the chain is exported and restarted from that genesis in the middle of the history
+				w.e = importL1(w.e, w.e.K.ExportGenesis(w.e.Ctx))
+				w.logf("genesis export -> import")
+				c.Class("genesis-round-trip-inside-history")
+				if err := c11Log(w); err != nil {
+					rt.Fatalf("C11 violated after a genesis round trip: %v\nhistory:\n%s", err, w.history())
+				}
+			}
 			pres := w.c11Pre()
 			digest := w.e.Digest()
 			others := map[uint64]string{}
